@@ -97,6 +97,15 @@ def run(tier):
         t = mml.parse(r_set["v"], expand=False)
         n_ids = len(mml.ids(t)) if t else 1
         scripts.append(script_for(e, c, st, rng, min(n_ids, 25 if tier == "quick" else 60), len(r_br["v"])))
+    # long sessions: the whole query programme of one expression three (thorough: eight) times over in ONE session per code - a query is
+    # pure also in what it costs: the 200th routing call of a session is answered like the first
+    seen_codes = set()
+    for s in list(scripts):
+        if s["code"] in seen_codes:
+            continue
+        seen_codes.add(s["code"])
+        k_ = 3 if tier == "quick" else 8
+        scripts.append({"ops": [dict(o) for _ in range(k_) for o in s["ops"]], "tags": list(s["tags"]) * k_, "code": s["code"], "style": s["style"], "expr": s["expr"], "soak": k_})
     # the harness substitutes ${ID:n}; "${NAVID}" must be the current navigation id: resolve by running nav_id first is not possible
     # statically, so the braille-with-navigation-id query is issued as braille_pos's companion through get_navigation_braille-free route:
     for s in scripts:
